@@ -26,11 +26,17 @@ type vxConn struct {
 	after    func()   // called by the Read that finds the script exhausted (e.g. observe, then Close)
 	cp       func()   // control point: other goroutines may run here (vh_C10_preempt)
 	entered  int      // number of Write calls issued (returned or not)
+	client   *Client
 }
 
 func newVxConn() *vxConn { return &vxConn{unblock: make(chan struct{})} }
 
 func (c *vxConn) Write(p []byte) (int, error) {
+	if c.client != nil {
+		// a Write may block until the connection is closed; Close needs the client's mutex before it closes
+		// the connection: writing while holding it (even shared) deadlocks Close against a blocked writer
+		vxAssert(!vxRWMutexHeld(&c.client.mux), "the connection is written without holding the client's mutex (a blocked writer would deadlock Close)")
+	}
 	c.entered++
 	fail := c.failNext // the failure belongs to the write that was issued first, not to one that overtakes it
 	c.failNext = false
@@ -152,6 +158,7 @@ func vxNewClient(opts ...ClientOption) *vxClientEnv {
 	vxAssert(err == nil && c != nil, "NewClient succeeds")
 	env.c = c
 	env.coll.client = c
+	env.conn.client = c
 	return env
 }
 
